@@ -13,11 +13,25 @@ again after the callee returned or raised.  Chains are started concurrently from
 @event_trigger functions and task.create, at generated instants, in both decorator subsystems, optionally
 while a pyscript.reload is in flight.
 
+Inner functions built across files: before a call into ANOTHER file the caller may first (``clo`` of a plan step) enter
+a frame of its own file, ``shade_all`` / ``shade_none``, that contains inner defs - so its locals are closure-capable -
+and, for ``shade_all``, has LOCAL variables, a local def and a local class named exactly like globals of every file
+(``tag``, ``import_token``, ``counter``, ``label``, ``Box``).  From that frame it calls the other file's ``make(kind,
+salt)`` (returns an inner function, or a bound method of a class defined inside ``make``) or applies the other file's
+decorator ``wrap`` to a local function.  The inner function / wrapper refers to ITS file's globals by plain name (a
+variable, the load token, the counter, a helper function, a module-level class) and to a genuine enclosing local.  It
+is then run by the caller itself, by a task the caller creates, or by an ``@event_trigger`` function the caller
+defines around it (fired by the driver once the runs are over), and reports what its names resolved to (``clor``).
+
 Oracle (by construction): per file *instance* (identified by the token it drew at load time) the counter seen by
 every mark must follow that instance's own bump history in recorded order; every mark must show the file's own
 tag/token/context name and exactly the foreign names it star-imported; the per-run sequence of marks must be the
 one the plan denotes (calls return / raise to the right frame); a file's top-level code runs at most once per
-(re)load and all importers see one instance per module name.
+(re)load and all importers see one instance per module name.  An inner function built by file g for a frame of file f
+must read g's tag / token / counter history / context name / helper / class and its own enclosing local whoever runs
+it; the function f had decorated with g's decorator must read f's names although g's wrapper calls it; f's frame must
+still read its own locals (or, without shadowing, f's globals) afterwards; without a reload every inner function
+handed out reports exactly once.
 """
 
 from __future__ import annotations
@@ -36,7 +50,10 @@ RULE = (
     "same global names; acyclic import edges with 1-2 forms each out of import / from-import / star / relative / "
     "function-body import; 2-6 runs = entry (service | event trigger | task.create) + chain of 1-4 hops chosen "
     "from the import edges, same-file calls and callbacks into upstream files, each hop with sleep / raise / "
-    "catch-reraise-unguarded / spawn-as-new-task; start instants in bursts, a few loop passes apart or on a "
+    "catch-reraise-unguarded / spawn-as-new-task / (cross-file hops only, p=0.3) an inner function - closure, "
+    "method of a function-local class, decorator wrapper - that the callee's file builds for a frame of the caller "
+    "whose locals do or do not shadow the callee's global names, run by the caller, a created task or an "
+    "@event_trigger closure; start instants in bursts, a few loop passes apart or on a "
     "0.25 s grid; optional pyscript.reload (all / touched module / one context) racing the runs; executor "
     "latency, cost, lateness from gen_cfg); distinct = scenario digest; non-trivial = at least two runs overlapped "
     "in time and at least one call crossed a file boundary"
@@ -58,6 +75,13 @@ ASSUMPTIONS = [
     "instance identity once a reload has been issued is judged only at the final quiescent probe",
     "pyscript.reload calls are issued one at a time, and never with global_ctx=<a module> (both hit reload "
     "defects outside C11 that make the entry points disappear)",
+    "inner functions are only requested from ANOTHER file than the calling frame's: which scope a free name of an "
+    "inner function binds to when the function that defines it was called from a frame of the SAME file is a "
+    "question of lexical scoping inside one file (a pure function of the program), not of isolation between files "
+    "(observed while building this: pyscript binds such a free name to a closure-capable local of that name in a "
+    "same-file CALLER's frame, i.e. dynamic instead of lexical scoping; reported, not generated and not judged here)",
+    "a trigger function or task that wraps an inner function may be taken away by a pyscript.reload: once a reload "
+    "has been issued it is don't-care WHETHER an inner function reports, what it reports is still judged",
     "asyncio FIFO ready queue is kept; interleavings explored are start instants, sleeps, executor latency, cost",
 ]
 TIERS = {
@@ -70,6 +94,9 @@ REACH_PROBES = [
     "from_import_star", "relative_import_hop", "method_hop", "callback_into_upstream_file",
     "task_create_cross_file", "same_instant_starts", "exception_through_unguarded_frame",
     "run_suspended_during_reload", "function_body_import", "old_instance_ran_after_reload",
+    "inner_function_built_across_files", "inner_function_closure", "inner_function_cls", "inner_function_deco",
+    "inner_function_run_by_direct", "inner_function_run_by_task", "inner_function_run_by_trigger",
+    "caller_locals_shadow_callee_globals",
 ]
 SHRINK_LISTS = [["ops"], ["spec", "runs"], ["spec", "runs", "*", "plan"], ["spec", "edges"]]
 
@@ -86,8 +113,11 @@ ABS_FORMS = ["attr", "from", "star", "lazy", "lazyfrom"]
 REL_FORMS = ["rel", "relfrom", "relstar", "lazyrel"]
 LAZY_FORMS = {"lazy", "lazyfrom", "lazyrel"}
 STAR_FORMS = {"star", "relstar"}
-SEQ_KINDS = {"start", "imp", "see", "spawned", "enter", "bumped", "back", "after", "badback"}
-OWN_KINDS = {"start", "spawned", "enter", "bumped", "back", "after", "loaded_end", "badback"}
+SEQ_KINDS = {"start", "imp", "see", "spawned", "enter", "bumped", "back", "after", "badback", "clo"}
+OWN_KINDS = {"start", "spawned", "enter", "bumped", "back", "after", "loaded_end", "badback", "clo"}
+CLO_KINDS = ["closure", "cls", "deco"]
+CLO_BY = ["direct", "task", "trigger"]
+CLO_SHADOW = ["all", "none"]
 
 
 # ------------------------------------------------------------------ generation
@@ -167,6 +197,11 @@ def _options(files: list, edges: list, cur: str, upstream: list) -> list:
     return opts
 
 
+def _gen_clo(rng: random.Random) -> dict:
+    return {"kind": rng.choice(CLO_KINDS), "by": rng.choice(CLO_BY), "shadow": rng.choice(["all", "all", "none"]),
+            "salt": rng.randint(1, 9) * 10}
+
+
 def _gen_plan(rng: random.Random, files: list, edges: list, entry: str, max_hops: int) -> list:
     plan = []
     cur = entry
@@ -193,6 +228,10 @@ def _gen_plan(rng: random.Random, files: list, edges: list, entry: str, max_hops
             # the arguments are bound, i.e. before the callee's body starts; the caller catches it and looks at
             # its own globals again
             "badfirst": rng.random() < 0.15,
+            # before the call the caller lets the callee's file build an inner function (closure / method of a local
+            # class / decorator wrapper) while the caller's own frame holds locals named like the callee's globals;
+            # the inner function is then run by the caller, by a created task or by a trigger (cross-file only)
+            "clo": _gen_clo(rng) if dst != cur and rng.random() < 0.3 else None,
         })
         cur = dst
         if cur not in upstream:
@@ -272,11 +311,21 @@ def normalize(scn: dict) -> dict | None:
         cur = run["entry"]
         upstream = [cur]
         rid = run["id"]
+        # work on copies: the shrinker hands in candidates whose run / step dicts are shared with its current best
+        # scenario, and dropping a 'clo' here must not leak into that one
+        run = dict(run)
+        run["plan"] = [dict(step) for step in run["plan"]]
         for d, step in enumerate(run["plan"]):
             opts = _options(files, edges, cur, upstream)
             if (step["via"], step["f"]) not in opts:
                 return None
             step["d"] = d
+            clo = step.get("clo")
+            if clo is not None and (step["f"] == cur or not isinstance(clo, dict) or clo.get("kind") not in CLO_KINDS
+                                    or clo.get("by") not in CLO_BY or clo.get("shadow") not in CLO_SHADOW
+                                    or not isinstance(clo.get("salt"), int)):
+                clo = None  # only a call into ANOTHER file is this property's business
+            step["clo"] = clo
             if d == 0:
                 step["spawn"] = run["how"] == "create"
             if step["spawn"]:
@@ -327,6 +376,15 @@ def simplify(scn: dict):
                     cand = copy.deepcopy(scn)
                     cand["spec"]["runs"][ri]["plan"][si][key] = val
                     yield normalize(cand)
+            if step.get("clo"):
+                cand = copy.deepcopy(scn)
+                cand["spec"]["runs"][ri]["plan"][si]["clo"] = None
+                yield normalize(cand)
+                for key, val in (("by", "direct"), ("kind", "closure"), ("shadow", "none"), ("salt", 10)):
+                    if step["clo"].get(key) != val:
+                        cand = copy.deepcopy(scn)
+                        cand["spec"]["runs"][ri]["plan"][si]["clo"][key] = val
+                        yield normalize(cand)
     for ei, edge in enumerate(spec["edges"]):
         if len(edge["forms"]) > 1:
             for fi in range(len(edge["forms"])):
@@ -368,7 +426,7 @@ def simplify(scn: dict):
 # ------------------------------------------------------------------ rendering
 def _from_list(prefix: str) -> str:
     return (f"hop as {prefix}_hop, box as {prefix}_box, import_token as {prefix}_tok, "
-            f"shared as {prefix}_shared, peek as {prefix}_peek")
+            f"shared as {prefix}_shared, peek as {prefix}_peek, make as {prefix}_make, wrap as {prefix}_wrap")
 
 
 def _top_import(dst: str, form: str) -> str | None:
@@ -399,7 +457,7 @@ def _lazy_import(dst: str, form: str) -> str | None:
 
 def _exprs(dst: str, form: str) -> dict:
     """How the importer spells the callee's objects for one edge form."""
-    names = ("hop", "box", "import_token", "shared", "peek")
+    names = ("hop", "box", "import_token", "shared", "peek", "make", "wrap")
     short = {"import_token": "tok"}
     if form in ("attr", "rel"):
         return {n: f"{dst}.{n}" for n in names}
@@ -429,7 +487,9 @@ def _own(fid: str) -> str:
 def _dispatch(fid: str, my_edges: list, ind: str, files: list) -> list[str]:
     lines = [f"{ind}tk = None", f"{ind}fn = None",
              f"{ind}if via == 'self':", f"{ind}    fn = box.poke if nx['meth'] else hop",
-             f"{ind}elif via == 'cb':", f"{ind}    fn = cbs[nx['f'] + '.m'] if nx['meth'] else cbs[nx['f']]"]
+             f"{ind}    mk, wr = make, wrap",
+             f"{ind}elif via == 'cb':", f"{ind}    fn = cbs[nx['f'] + '.m'] if nx['meth'] else cbs[nx['f']]",
+             f"{ind}    mk, wr = cbs[nx['f'] + '.k']"]
     for edge in my_edges:
         dst = edge["dst"]
         for form in edge["forms"]:
@@ -442,8 +502,16 @@ def _dispatch(fid: str, my_edges: list, ind: str, files: list) -> list[str]:
             lines.append(f"{ind}    tk = {ex['import_token']}")
             lines.append(f"{ind}    {ex['shared']}.append(run)")
             lines.append(f"{ind}    fn = {ex['box']}.poke if nx['meth'] else {ex['hop']}")
+            lines.append(f"{ind}    mk, wr = {ex['make']}, {ex['wrap']}")
     lines += [f"{ind}if tk is not None:",
               f"{ind}    sim.mark('see', {fid!r}, run=run, d=d, g=nx['f'], via=via, tok=tk)"]
+    # the callee's file builds an inner function on behalf of this file's shade_*() frame; see _render_closures
+    lines += [f"{ind}if nx.get('clo'):",
+              f"{ind}    if nx['clo']['shadow'] == 'all':",
+              f"{ind}        shade_all(mk, wr, run, d, nx['f'], nx['clo'])",
+              f"{ind}    else:",
+              f"{ind}        shade_none(mk, wr, run, d, nx['f'], nx['clo'])",
+              f"{ind}    sim.mark('clo', {fid!r}, run=run, d=d, g=nx['f'], {_own(fid)})"]
     lines += [f"{ind}if nx.get('badfirst'):", f"{ind}    try:", f"{ind}        fn()",
               f"{ind}    except TypeError:", f"{ind}        pass"]
     lines += _vis_block(fid, files, ind + "    ")
@@ -464,7 +532,8 @@ def _hop_body(fid: str, files: list, my_edges: list, ind: str, meth: bool) -> li
     lines.append(f"{ind}counter += 1")
     lines.append(f"{ind}sim.mark('bumped', {fid!r}, run=run, d=d, k={k!r}, {own})")
     lines += [f"{ind}if len(plan) > 1:", f"{i2}rest = plan[1:]", f"{i2}nx = rest[0]", f"{i2}via = nx['via']",
-              f"{i2}cbs2 = dict(cbs)", f"{i2}cbs2[{fid!r}] = hop", f"{i2}cbs2[{fid + '.m'!r}] = box.poke"]
+              f"{i2}cbs2 = dict(cbs)", f"{i2}cbs2[{fid!r}] = hop", f"{i2}cbs2[{fid + '.m'!r}] = box.poke",
+              f"{i2}cbs2[{fid + '.k'!r}] = (make, wrap)"]
     lines += _dispatch(fid, my_edges, i2, files)
     lines += [f"{i2}if nx['spawn']:", f"{i3}task.create(fn, nx['run'], rest, cbs2)",
               f"{i3}sim.mark('spawned', {fid!r}, run=run, d=d, {own})",
@@ -479,6 +548,63 @@ def _hop_body(fid: str, files: list, my_edges: list, ind: str, meth: bool) -> li
     lines += [f"{ind}if me['sleep2'] > 0:", f"{i2}task.sleep(me['sleep2'])",
               f"{i2}sim.mark('after', {fid!r}, run=run, d=d, {own})"]
     lines += [f"{ind}if me['raise']:", f"{i2}raise ValueError('boom')", f"{ind}return counter"]
+    return lines
+
+
+def _render_closures(fid: str) -> list[str]:
+    """Inner-function factories of file ``fid`` (what OTHER files call) and the frames that call the factories of
+    other files (shade_all / shade_none), plus the function that finally runs the inner function (clo_deliver).
+
+    make(kind, salt) returns an inner function (kind 'closure') or a bound method of a class defined inside make
+    (kind 'cls'); wrap(func) is a decorator returning a wrapper.  All three inner functions read the globals of the
+    file that defines them by plain name - tag, import_token, counter, the helper label(), the class Box - plus a
+    genuine enclosing local (seq / func).  shade_all() is the calling frame of another file: it has LOCALS with
+    exactly those names (and inner defs, so they are closure-capable), shade_none() has inner defs only."""
+    reads = ("'tag': tag, 'tok': import_token, 'counter': counter, 'ctx': pyscript.get_global_ctx(), "
+             "'lab': label(x), 'home': Box.home")
+    lines = ["def label(x):", f"    return {fid + ':'!r} + str(x)", "",
+             "def make(kind, salt):", "    seq = [salt]",
+             "    if kind == 'cls':",
+             "        class Reader:",
+             "            def read(self, x):",
+             "                seq.append(x)",
+             f"                return {{{reads}, 'seq': list(seq)}}",
+             "        return Reader().read",
+             "    def reader(x):",
+             "        seq.append(x)",
+             f"        return {{{reads}, 'seq': list(seq)}}",
+             "    return reader", "",
+             "def wrap(func):",
+             "    def wrapper(x):",
+             f"        return {{{reads}, 'inner': func(x)}}",
+             "    return wrapper", "",
+             "clo_keep = []", "",
+             "def clo_deliver(rd, keep, run, d, g, by, kind, x):",
+             f"    sim.mark('clor', {fid!r}, run=run, d=d, g=g, by=by, kind=kind, x=x, got=rd(x), keep=keep(), {_own(fid)})",
+             ""]
+    for shadow in CLO_SHADOW:
+        lines += [f"def shade_{shadow}(mk, wr, run, d, g, clo):"]
+        if shadow == "all":
+            lines += [f"    tag = {'local:' + fid!r}", "    import_token = -1", "    counter = -100",
+                      "    class Box:", f"        home = {'local:' + fid!r}",
+                      "    def label(x):", f"        return {'local:' + fid + ':'!r} + str(x)"]
+        lines += ["    by = clo['by']", "    kind = clo['kind']", "    x = clo['salt'] + 1",
+                  "    def keep():", "        return [tag, import_token, counter, label(0), Box.home]",
+                  "    if kind == 'deco':",
+                  "        @wr",
+                  "        def rd(x):",
+                  "            return [tag, x]",
+                  "    else:",
+                  "        rd = mk(kind, clo['salt'])",
+                  "    if by == 'trigger':",
+                  "        @event_trigger('clo_fire')",
+                  "        def on_fire(**kw):",
+                  "            clo_deliver(rd, keep, run, d, g, by, kind, x)",
+                  "        clo_keep.append(on_fire)",
+                  "    elif by == 'task':",
+                  "        task.create(clo_deliver, rd, keep, run, d, g, by, kind, x)",
+                  "    else:",
+                  "        clo_deliver(rd, keep, run, d, g, by, kind, x)", ""]
     return lines
 
 
@@ -502,12 +628,14 @@ def _render_file(fid: str, spec: dict) -> str:
     if slow:
         lines.append(f"task.sleep({slow})")
     lines += [f"import_token = tok_{fid}", f"tag = {fid!r}", "counter = 0", "shared = []", f"only_{fid} = {fid!r}", ""]
-    lines += ["class Box:", "    def __init__(self, label):", "        self.label = label", "        self.n = 0", "",
+    lines += ["class Box:", f"    home = {fid!r}", "",
+              "    def __init__(self, label):", "        self.label = label", "        self.n = 0", "",
               "    def poke(self, run, plan, cbs):"]
     lines += _hop_body(fid, files, my_edges, "        ", True)
     lines += ["", "def hop(run, plan, cbs):"]
     lines += _hop_body(fid, files, my_edges, "    ", False)
     lines += ["", f"box = Box({fid!r})", ""]
+    lines += _render_closures(fid)
     # ---- quiescent probe
     lines += ["def peek(out):",
               f"    ent = {{'f': {fid!r}, 'tok': import_token, 'tag': tag, 'counter': counter, 'sh': len(shared), "
@@ -524,7 +652,7 @@ def _render_file(fid: str, spec: dict) -> str:
     lines += ["    ent['tag2'] = tag", "    ent['ctx2'] = pyscript.get_global_ctx()", "    ent['tok2'] = import_token", ""]
     if fid in ENTRY_POOL:
         lines += ["def launch(run, plan, how, top):", "    nx = plan[0]", "    via = nx['via']", "    d = -1",
-                  f"    cbs = {{{fid!r}: hop, {fid + '.m'!r}: box.poke}}",
+                  f"    cbs = {{{fid!r}: hop, {fid + '.m'!r}: box.poke, {fid + '.k'!r}: (make, wrap)}}",
                   f"    sim.mark('start', {fid!r}, run=run, d=d, how=how, {own})"]
         lines += _dispatch(fid, my_edges, "    ", files)
         lines += ["    if nx['spawn']:", "        task.create(fn, nx['run'], plan, cbs)",
@@ -543,7 +671,8 @@ def _render_file(fid: str, spec: dict) -> str:
                   "@service", f"def look_{fid}(**kw):", "    out = []", "    peek(out)",
                   f"    sim.mark('peek', {fid!r}, out=out)", ""]
     else:
-        lines += [f"hop_{fid} = hop", f"box_{fid} = box", f"shared_{fid} = shared", f"peek_{fid} = peek", ""]
+        lines += [f"hop_{fid} = hop", f"box_{fid} = box", f"shared_{fid} = shared", f"peek_{fid} = peek",
+                  f"make_{fid} = make", f"wrap_{fid} = wrap", ""]
     lines.append(f"sim.mark('loaded_end', {fid!r}, {own})")
     return "\n".join(lines) + "\n"
 
@@ -569,6 +698,8 @@ def _pre_call(seq: list, fid: str, d: int, nx: dict) -> None:
         seq.append(("imp", fid, d))
     if form not in ("self", "cb"):
         seq.append(("see", fid, d))
+    if nx.get("clo"):
+        seq.append(("clo", fid, d))
     if nx.get("badfirst"):
         seq.append(("badback", fid, d))
 
@@ -613,6 +744,20 @@ def expected_sequences(run: dict) -> dict:
     else:
         res = _exp_hop(out, rid, plan, 0)
         seq.append(("back", entry, -1, res))
+    return out
+
+
+def expected_clors(run: dict) -> list:
+    """(run id of the calling frame, hop index of the caller, caller file, file that builds the inner function, clo)
+    for every step of the plan that carries a closure exercise; every hop of a plan is entered, so all are due."""
+    out = []
+    rid, cur = run["id"], run["entry"]
+    for i, step in enumerate(run["plan"]):
+        if step.get("clo"):
+            out.append((rid, i - 1, cur, step["f"], step["clo"]))
+        if step["spawn"]:
+            rid = step["run"]
+        cur = step["f"]
     return out
 
 
@@ -729,6 +874,10 @@ def run(scn: dict) -> dict:
             if rec["task"].exception() is not None:
                 raise HarnessError(f"C11: pyscript.reload raised {rec['task'].exception()!r}")
         await w.settle(1.0)
+        if any(s.get("clo") and s["clo"]["by"] == "trigger" for r in spec["runs"] for s in r["plan"]):
+            # the inner functions that were wrapped into trigger functions run now, each in its trigger's task
+            w.fire("clo_fire", {})
+            await w.settle(1.0)
         st["peek_from"] = len(w.marks)
         for fid in spec["files"]:
             if fid in ENTRY_POOL:
@@ -836,6 +985,81 @@ def judge(w: World, scn: dict, st: dict):
                  f"{where} can read the only_<file> names of {kw['vis']}; by its star imports it should see "
                  f"exactly {exp_vis[fid]}", t)
 
+    clors: dict = {}           # (run, d, caller file) -> 'clor' marks
+    clo_plan = {(crid, cd, cfid): (cg, clo) for rn in spec["runs"] for (crid, cd, cfid, cg, clo) in expected_clors(rn)}
+
+    def check_clor(m: dict, fid: str, kw: dict) -> None:
+        """An inner function built by file g on behalf of a frame of file ``fid`` has just been run (by the caller,
+        a created task or a trigger) and has reported what its free names resolve to."""
+        t = m["t"]
+        g, by, kind, x = kw.get("g"), kw.get("by"), kw.get("kind"), kw.get("x")
+        got = kw.get("got")
+        if g not in files or g == fid or not isinstance(got, dict) or not isinstance(x, int):
+            raise HarnessError(f"C11: malformed clor mark {kw}")
+        planned = clo_plan.get((kw.get("run"), kw.get("d"), fid))
+        if planned is None or planned[0] != g or planned[1]["salt"] + 1 != x or planned[1]["kind"] != kind or \
+                planned[1]["by"] != by:
+            raise HarnessError(f"C11: clor mark without a plan step {kw}")
+        shadow = planned[1]["shadow"]
+        where = (f"inner function ({kind}) built by {g} during a call from {fid} (run {kw.get('run')}, hop {kw.get('d')}), "
+                 f"run by {by} (task {m['task']})")
+        w.probe("inner_function_built_across_files")
+        w.probe(f"inner_function_{kind}")
+        w.probe(f"inner_function_run_by_{by}")
+        if shadow == "all":
+            w.probe("caller_locals_shadow_callee_globals")
+        cls = "C11.foreign_globals"
+
+        def leak(val) -> str:
+            return " - that is a name of the CALLING file" if isinstance(val, str) and val.startswith(
+                ("local:" + fid, fid)) or val in (-1, -100) else ""
+
+        if got.get("tag") != g:
+            viol(cls, {"at": "inner_function", "what": "tag"},
+                 f"{where} reads tag={got.get('tag')!r}; its defining file's global is {g!r}{leak(got.get('tag'))}", t)
+        tok = got.get("tok")
+        if tok_owner(tok) != g:
+            viol(cls, {"at": "inner_function", "what": "token"},
+                 f"{where} reads import_token={tok!r}, drawn by {tok_owner(tok)!r}, not by {g!r}{leak(tok)}", t)
+        elif got.get("tag") == g:
+            want = counter_model.get((g, tok), 0)
+            if got.get("counter") != want:
+                viol(cls, {"at": "inner_function", "what": "counter"},
+                     f"{where} reads counter={got.get('counter')!r}; the bump history of instance {tok} of {g} gives "
+                     f"{want}{leak(got.get('counter'))}", t)
+        if got.get("ctx") != CTX[g]:
+            viol(cls, {"at": "inner_function", "what": "ctx_name"},
+                 f"{where}: pyscript.get_global_ctx() = {got.get('ctx')!r}, the defining file's context is {CTX[g]!r}", t)
+        if got.get("lab") != f"{g}:{x}":
+            viol(cls, {"at": "inner_function", "what": "helper_function"},
+                 f"{where} calls label({x}) and gets {got.get('lab')!r}; its own file's label() returns "
+                 f"{g + ':' + str(x)!r}{leak(got.get('lab'))}", t)
+        if got.get("home") != g:
+            viol(cls, {"at": "inner_function", "what": "class"},
+                 f"{where} reads Box.home={got.get('home')!r}; its own file's class Box has home={g!r}"
+                 f"{leak(got.get('home'))}", t)
+        caller_tag = "local:" + fid if shadow == "all" else fid
+        if kind == "deco":
+            # the decorated function is the caller's: it runs against the caller's names although g's wrapper calls it
+            if got.get("inner") != [caller_tag, x]:
+                viol(cls, {"at": "decorated_function", "what": "tag"},
+                     f"{where}: the decorated function of {fid} returned {got.get('inner')!r}, its own tag is "
+                     f"{caller_tag!r} (expected {[caller_tag, x]!r})", t)
+        elif got.get("seq") != [x - 1, x]:
+            viol(cls, {"at": "inner_function", "what": "enclosing_local"},
+                 f"{where} sees its enclosing function's list as {got.get('seq')!r}, expected {[x - 1, x]!r}", t)
+        # the calling frame's own names after the foreign code ran
+        own_tok = kw.get("tok")
+        if shadow == "all":
+            want_keep = ["local:" + fid, -1, -100, f"local:{fid}:0", "local:" + fid]
+        else:
+            want_keep = [fid, own_tok, counter_model.get((fid, own_tok), 0), f"{fid}:0", fid]
+        if kw.get("keep") != want_keep:
+            viol("C11.caller_context_not_restored", {"at": "clor", "what": "caller_names"},
+                 f"{where}: afterwards the calling frame of {fid} reads [tag, import_token, counter, label(0), Box.home] "
+                 f"= {kw.get('keep')!r}, expected {want_keep!r}", t)
+        check_own(m, fid, kw, "C11.caller_context_not_restored", "clor")
+
     for idx, m in enumerate(w.marks):
         kind = m["args"][0]
         fid = m["args"][1] if len(m["args"]) > 1 else None
@@ -920,10 +1144,14 @@ def judge(w: World, scn: dict, st: dict):
                              f"(latest: {fid} through {kw.get('via')} in run {run_id}); no reload had been issued",
                              m["t"], once=g)
             continue
+        if kind == "clor":
+            clors.setdefault((run_id, kw.get("d"), fid), []).append(m)
+            check_clor(m, fid, kw)
+            continue
         # ---- marks made by code of file fid that read its own globals
         if kind not in OWN_KINDS:
             raise HarnessError(f"C11: unknown mark kind {kind}")
-        cls = "C11.caller_context_not_restored" if kind in ("back", "after", "badback") else "C11.foreign_globals"
+        cls = "C11.caller_context_not_restored" if kind in ("back", "after", "badback", "clo") else "C11.foreign_globals"
         check_own(m, fid, kw, cls, kind, bump=(kind == "bumped"))
         if kind == "enter":
             if kw.get("k") == "m":
@@ -973,6 +1201,18 @@ def judge(w: World, scn: dict, st: dict):
             w.probe("run_started_twice_during_reload")
             continue
         n_runs_seen += 1
+        if not any_reload:
+            # every inner function that was handed out must have been run exactly once (a reload may legitimately
+            # take the trigger or the task away: don't-care then)
+            for (crid, cd, cfid, cg, clo) in expected_clors(rn):
+                n_got = len(clors.get((crid, cd, cfid), []))
+                if n_got != 1:
+                    errs = [l["msg"].strip().split("\n")[-1][:160] for l in w.logs
+                            if l["level"] == "ERROR" and "boom" not in l["msg"]][:3]
+                    viol("C11.call_chain_deviates", {"expected": "clor", "got": None if n_got == 0 else "clor"},
+                         f"run {crid}: the inner function ({clo['kind']}) that {cg} built for {cfid} (hop {cd}) and that "
+                         f"was to be run by {clo['by']} reported {n_got} times instead of once; error log: {errs}",
+                         w.marks[-1]["t"])  # established at the end of the run, after whatever went wrong before
         for rid, exp in sorted(exp_all.items()):
             got = []
             for m in run_marks.get(rid, []):
